@@ -114,6 +114,21 @@ func TestVerifC12(t *testing.T) {
 		r.Eval(fmt.Sprintf("genkey:%s,chunk=%d", g.plan, g.chunk))
 	})
 
+	// ---- 2^24 (2^26 thorough) consecutive rejected candidates from a generated source: the number of redraws is
+	//      unbounded in the statement; an implementation whose redraw costs stack or memory per candidate dies here
+	{
+		nrej := int64(hk.N(1<<24, 1<<26))
+		dd := randScalar(rng)
+		zr := &zeroRunReader{zeros: 32 * nrej, tail: append(ref.B32(dd), rng.Bytes(32)...)}
+		r.Journal("GenerateKey after %d rejected candidates (all zero)", nrej)
+		priv, x, y, err := GenerateKey(zr)
+		P := refPub(dd)
+		if err != nil || !bytes.Equal(priv, ref.B32(dd)) || !bytes.Equal(x, ref.B32(P.X)) || !bytes.Equal(y, ref.B32(P.Y)) || zr.read != 32*nrej+32 {
+			r.Violation("generatekey-wrong-after-very-long-rejection-run", hk.D{"rejected_candidates": nrej, "err": errStr(err), "priv": hexOrNil(priv), "want": hk.Hex(ref.B32(dd)), "bytes_read": zr.read})
+		}
+		r.Eval("genkey:rejection-run=2^24+")
+	}
+
 	// ---- TestPrivateKey: 32-byte strings accepted iff value in [1,n-2]
 	var vals []*big.Int
 	for _, c := range []*big.Int{bi(0), nI, b256, new(big.Int).Lsh(bi(1), 255), new(big.Int).Lsh(bi(1), 128), new(big.Int).Rsh(nI, 1)} {
